@@ -31,6 +31,10 @@ type Contract struct {
 	ModifiesIdx []int
 	NoCap       bool
 	Keeps       []string // "param.field": the slice field keeps its backing array (it is only re-sliced)
+	Mutates     []string // "param.field": objects reachable through that slice field of a by-value parameter may be modified (documented exception to the frame)
+	Writes      []string // "param.field": the elements of that slice field may be overwritten by the callee
+	Bounded     string   // generator name: the (trusted) contract is validated by execution on generated inputs
+	BoundedTags []string
 	Inline      bool
 	Trusted     bool
 	Lemma       bool
@@ -71,6 +75,7 @@ type Clause struct {
 	Exists  bool // binders are existential
 	Expr    ast.Expr
 	Info    *types.Info
+	Assumed bool      // `assumes`: a well-formedness assumption on the inputs (not an obligation at call sites; listed in the evidence)
 	Except  []*Clause // known-finding predicates: the clause is proved under !except
 	nRes    int       // placeholders 0..nRes-1 are the results, then the binders
 }
@@ -94,7 +99,7 @@ func hasTag(tags []string, p string) bool {
 	return false
 }
 
-var clauseHead = regexp.MustCompile(`^(func|requires|ensures|invariant|decreases|cases|exit|loop|safety|modifies|recv|nocap|inline|trusted|lemma|fresh|allocates|unroll|rec|mathint|slow|keeps)(\[[A-Za-z0-9,* ]*\])?(\s+|$)`)
+var clauseHead = regexp.MustCompile(`^(func|requires|assumes|ensures|invariant|decreases|cases|exit|loop|safety|modifies|recv|nocap|inline|trusted|lemma|fresh|allocates|unroll|rec|mathint|slow|keeps|writes|bounded|mutates)(\[[A-Za-z0-9,* ]*\])?(\s+|$)`)
 
 // parseContractFile extracts the //@ blocks of one file.
 func parseContractComments(fset *token.FileSet, f *ast.File) ([]*Contract, error) {
@@ -159,7 +164,7 @@ func parseContractComments(fset *token.FileSet, f *ast.File) ([]*Contract, error
 				}
 				cur.rawLoops[curLoop] = append(cur.rawLoops[curLoop], rawClause{kw, tags, rest, line})
 				last = &cur.rawLoops[curLoop][len(cur.rawLoops[curLoop])-1]
-			case "requires", "ensures", "allocates":
+			case "requires", "assumes", "ensures", "allocates":
 				cur.raw = append(cur.raw, rawClause{kw, tags, rest, line})
 				last = &cur.raw[len(cur.raw)-1]
 			case "safety":
@@ -183,6 +188,21 @@ func parseContractComments(fset *token.FileSet, f *ast.File) ([]*Contract, error
 				cur.Inline = true
 			case "trusted":
 				cur.Trusted = true
+			case "bounded":
+				cur.Bounded = strings.TrimSpace(rest)
+				cur.BoundedTags = splitTags(tags)
+			case "mutates":
+				for _, x := range strings.Split(rest, ",") {
+					if x = strings.TrimSpace(x); x != "" {
+						cur.Mutates = append(cur.Mutates, x)
+					}
+				}
+			case "writes":
+				for _, x := range strings.Split(rest, ",") {
+					if x = strings.TrimSpace(x); x != "" {
+						cur.Writes = append(cur.Writes, x)
+					}
+				}
 			case "lemma":
 				cur.Lemma = true
 			case "rec":
@@ -654,12 +674,15 @@ func (e *Engine) bindContract(ct *Contract) error {
 	nReq, nEns := 0, 0
 	for _, rc := range ct.raw {
 		switch rc.kind {
-		case "requires":
+		case "requires", "assumes":
 			nReq++
-			cl, err := e.parseClause(ct, rc, pos, false, nReq)
+			rc2 := rc
+			rc2.kind = "requires"
+			cl, err := e.parseClause(ct, rc2, pos, false, nReq)
 			if err != nil {
 				return err
 			}
+			cl.Assumed = rc.kind == "assumes"
 			ct.Requires = append(ct.Requires, cl)
 		case "ensures":
 			nEns++
